@@ -12,4 +12,31 @@ theorem C02_analysis_sound (ns : List Node) (hwf : ∀ n ∈ ns, nodeWF n = true
     | .runError _ e => isFlowC02 e = false :=
   analysis_sound resolveTable SemantivaModel.Tie.C01.precedence_ok ns hwf d₀ c₀ req hA hreq
 
+/-- Reported origin "node j" is true of the resolution order read off the code on this run. -/
+theorem C02_origin_node_true (pre : List Node) (n : Node) (d₀ : Data) (c₀ : Ctx) (s : Data × Ctx) (hs : List Ctx)
+    (hwf : ∀ m ∈ pre, nodeWF m = true ∧ construct m = none)
+    (hrun : execHist resolveTable pre (d₀, c₀) = .ok (s, hs)) (p : PSig) (j : Nat)
+    (ho : originOf n (foldO pre 0 OState.init).om p = .node j) :
+    j < pre.length ∧
+    ∃ dj cj v, execFrom resolveTable (pre.take (j + 1)) 0 (d₀, c₀) = .ok (dj, cj) ∧ cj.get p.name = some v ∧
+      resolve resolveTable n s.2 p = .ok v :=
+  origin_node_true resolveTable SemantivaModel.Tie.C01.precedence_ok pre n d₀ c₀ s hs hwf hrun p j ho
+
+/-- Reported origin "initial context" is true of accepted pipelines, for the resolution order read off the code. -/
+theorem C02_origin_initial_true (pre : List Node) (n : Node) (post : List Node) (d₀ : Data) (c₀ : Ctx) (s : Data × Ctx)
+    (hs : List Ctx) (req : List String) (hacc : analyse (pre ++ n :: post) d₀.ty = .ok req)
+    (hwf : ∀ m ∈ pre, nodeWF m = true ∧ construct m = none)
+    (hrun : execHist resolveTable pre (d₀, c₀) = .ok (s, hs)) (p : PSig) (hp : p ∈ n.params)
+    (ho : originOf n (foldO pre 0 OState.init).om p = .initial) :
+    resolve resolveTable n s.2 p = (match c₀.get p.name with | some v => .ok v | none => .error (.unresolved p.name)) :=
+  origin_initial_true_of_accepted resolveTable SemantivaModel.Tie.C01.precedence_ok pre n post d₀ c₀ s hs req hacc hwf hrun p hp ho
+
+/-- Reported origin "default" is true when the caller's context does not hold the name (the proviso the finding is about). -/
+theorem C02_origin_default_true_partial (pre : List Node) (n : Node) (d₀ : Data) (c₀ : Ctx) (s : Data × Ctx) (hs : List Ctx)
+    (hwf : ∀ m ∈ pre, nodeWF m = true ∧ construct m = none)
+    (hrun : execHist resolveTable pre (d₀, c₀) = .ok (s, hs)) (p : PSig)
+    (ho : originOf n (foldO pre 0 OState.init).om p = .default) (hc₀ : c₀.has p.name = false) :
+    ∃ dv, p.dflt = some dv ∧ resolve resolveTable n s.2 p = .ok dv :=
+  origin_default_true_partial resolveTable SemantivaModel.Tie.C01.precedence_ok pre n d₀ c₀ s hs hwf hrun p ho hc₀
+
 end SemantivaModel.Tie.C02
